@@ -100,6 +100,10 @@ def _sp_new(name):
         return odl.rn((2, 3))
     if name == 'rn23w':
         return odl.rn((2, 3), weighting=0.5)
+    if name == 'rn332':
+        return odl.rn((3, 3, 2))
+    if name == 'rn233':
+        return odl.rn((2, 3, 3))
     if name == 'cn23':
         return odl.cn((2, 3))
     if name == 'ud23':
@@ -116,6 +120,8 @@ def _sp_new(name):
         return odl.uniform_discr(0, 2, 4, nodes_on_bdry=True)
     if name == 'ud34':
         return odl.uniform_discr([0, 0], [3, 2], (3, 4))
+    if name == 'ud3':
+        return odl.uniform_discr(0, 1.5, 3)
     if name == 'ud8':
         return odl.uniform_discr(0, 1, 8)
     if name == 'rn2f32':
@@ -160,7 +166,7 @@ def _matrixop(o):
         # acts along one axis of a 2-d domain
         k = dom.shape[o['axis']]
         m = o.get('rows', 2)
-        A = np.array([[1.0, -0.5, 2.0], [0.0, 1.0, 0.5], [2.0, 0.0, -1.0]])[:m, :k]
+        A = np.array([[1.0, -0.5, 2.0], [0.5, 1.0, 0.25], [2.0, 0.0, -1.0]])[:m, :k]
         return odl.MatrixOperator(A, domain=dom, axis=o['axis'])
     return odl.MatrixOperator(_mat(o, dom, ran), domain=dom, range=ran)
 
@@ -191,6 +197,9 @@ def _leaf(name, sp):
         return odl.ConstantOperator(el(sp, 1), sp)
     if name == 'Z':
         return odl.ZeroOperator(sp)
+    if name == 'V':
+        # returns (a view of) its input when called out-of-place
+        return odl.RealPart(sp)
     raise KeyError(name)
 
 
@@ -386,7 +395,10 @@ def _deform(o):
 
 _GD = [dict(), dict(method='backward'), dict(method='central'), dict(pad_mode='symmetric'),
        dict(pad_mode='periodic'), dict(pad_mode='order1'), dict(pad_mode='constant', pad_const=1.5),
-       dict(pad_mode='order0'), dict(dom='udc4'), dict(dom='ud23b'), dict(dom='ud4')]
+       dict(pad_mode='order0'), dict(dom='udc4'), dict(dom='ud23b'), dict(dom='ud4')] + \
+    [dict(dom='ud34', pad_mode=pm, method=m) for pm in ('order1', 'order2')
+     for m in ('forward', 'backward', 'central')] + \
+    [dict(dom='ud3', pad_mode=pm, method='central') for pm in ('order1', 'order2', 'symmetric')]
 
 UFUNCS_1 = ['absolute', 'sign', 'negative', 'square', 'sqrt', 'reciprocal', 'exp', 'expm1', 'exp2',
             'log', 'log2', 'log10', 'log1p', 'sin', 'cos', 'tan', 'arcsin', 'arccos', 'arctan',
@@ -463,18 +475,27 @@ SPECS = [
     OSpec('PointwiseNorm', [dict(dom='pw_rn3_2'), dict(dom='pw_rn3_2', p=1), dict(dom='pw_rn3_2', p=1.5),
                             dict(dom='pw_rn3_2', p=3), dict(dom='pw_rn3_2', p='inf'),
                             dict(dom='pw_rn3_2', w=[1.0, 2.0]), dict(dom='pw_ud4_2'),
-                            dict(dom='pw_rn3_2', p=3, w=[1.0, 2.0]), dict(dom='pw_cn2_2w')],
+                            dict(dom='pw_rn3_2', p=3, w=[1.0, 2.0]), dict(dom='pw_cn2_2w'),
+                            dict(dom='pw_rn2_3w'), dict(dom='pw_rn2_3w', w=[1.0, 1.0, 1.0]),
+                            dict(dom='pw_rn2_3w', p=1.5, w=1.0), dict(dom='pw_rn2_2_c', w=1.0),
+                            dict(dom='pw_rn2_3w', p=3)],
           lambda o: odl.PointwiseNorm(_sp(o['dom']), exponent=None if 'p' not in o else float(o['p']),
                                       weighting=o.get('w')), dk='nonzero'),
     OSpec('PointwiseInner', [dict(dom='pw_rn3_2'), dict(dom='pw_rn3_2', w=[1.0, 2.0]),
-                             dict(dom='pw_ud4_2'), dict(dom='pw_cn2_2w'), dict(dom='pw_rn2_3w')],
+                             dict(dom='pw_ud4_2'), dict(dom='pw_cn2_2w'), dict(dom='pw_rn2_3w'),
+                             dict(dom='pw_rn2_3w', w=[1.0, 1.0, 1.0]), dict(dom='pw_rn2_3w', w=1.0),
+                             dict(dom='pw_cn2_2w', w=[1.0, 1.0]), dict(dom='pw_rn2_3w', w=[2.0, 1.0, 0.5]),
+                             dict(dom='pw_rn2_2_c', w=1.0), dict(dom='pw_rn2_2_c')],
           lambda o: odl.PointwiseInner(_sp(o['dom']), el(_sp(o['dom']), 1), weighting=o.get('w'))),
     OSpec('PointwiseInnerAdjoint', [dict(dom='pw_rn3_2'), dict(dom='pw_rn3_2', w=[1.0, 2.0]),
-                                    dict(dom='pw_cn2_2w'), dict(dom='pw_ud4_2')],
+                                    dict(dom='pw_cn2_2w'), dict(dom='pw_ud4_2'),
+                                    dict(dom='pw_rn2_3w', w=[1.0, 1.0, 1.0]), dict(dom='pw_rn2_3w'),
+                                    dict(dom='pw_rn2_2_c', w=1.0)],
           lambda o: odl.PointwiseInner(_sp(o['dom']), el(_sp(o['dom']), 1),
                                        weighting=o.get('w')).adjoint),
     OSpec('PointwiseSum', [dict(dom='pw_rn3_2'), dict(dom='pw_rn3_2', w=[1.0, 2.0]),
-                           dict(dom='pw_ud4_2'), dict(dom='pw_rn2_3w')],
+                           dict(dom='pw_ud4_2'), dict(dom='pw_rn2_3w'),
+                           dict(dom='pw_rn2_3w', w=[1.0, 1.0, 1.0]), dict(dom='pw_rn2_2_c', w=1.0)],
           lambda o: odl.PointwiseSum(_sp(o['dom']), weighting=o.get('w'))),
     OSpec('MatrixOperator', [dict(dom='rn3', ran='rn2'), dict(dom='rn2', ran='rn3'),
                              dict(dom='rn3', ran='rn3'), dict(dom='cn2', ran='cn2', complex=1),
@@ -482,7 +503,12 @@ SPECS = [
                              dict(dom='rn23', ran='rn23', axis=1), dict(dom='rn3w2', ran='rn2w2'),
                              dict(dom='rn3w2', ran='rn2'), dict(dom='rn3wa', ran='rn2wa'),
                              dict(dom='rn3', ran='cn2' if False else 'rn2', rows=2),
-                             dict(dom='rn23w', ran='rn23w', axis=1, rows=3)],
+                             dict(dom='rn23w', ran='rn23w', axis=1, rows=3),
+                             dict(dom='rn332', ran='rn332', axis=0, rows=3),
+                             dict(dom='rn332', ran='rn332', axis=1, rows=2),
+                             dict(dom='rn332', ran='rn332', axis=2, rows=3),
+                             dict(dom='rn233', ran='rn233', axis=0, rows=3),
+                             dict(dom='rn233', ran='rn233', axis=1, rows=3)],
           _matrixop),
     OSpec('SamplingOperator', [dict(k='s', variant='point_eval'), dict(k='s', variant='integrate'),
                                dict(k='s', variant='point_eval', dom='ud23b'),
@@ -582,24 +608,30 @@ SPECS = [
     OSpec('RayBackProjection', [dict()], lambda o: _ray(o).adjoint, approx_adjoint=True),
     # ---- expression classes of operator.py
     OSpec('OperatorSum', [dict(k='sum', A='A', B='M'), dict(k='sum', A='P2', B='M'),
+                          dict(k='sum', A='V', B='M'), dict(k='sum', A='M', B='V'),
                           dict(k='sum_tmp', A='A', B='M'), dict(k='sum_tmp', A='P2', B='sin'),
                           dict(k='sum', A='Ac', B='M', space='cn2')], _expr),
-    OSpec('OperatorVectorSum', [dict(k='vecsum', A='A'), dict(k='vecsum', A='P2')], _expr),
+    OSpec('OperatorVectorSum', [dict(k='vecsum', A='A'), dict(k='vecsum', A='P2'),
+                                dict(k='vecsum', A='V')], _expr),
     OSpec('OperatorComp', [dict(k='comp', A='A', B='M'), dict(k='comp', A='P2', B='A'),
                            dict(k='comp', A='A', B='P2'), dict(k='comp_tmp', A='sin', B='P2'),
-                           dict(k='comp', A='Ac', B='M', space='cn2'), dict(k='comp', A='P3', B='Aff')],
+                           dict(k='comp', A='Ac', B='M', space='cn2'), dict(k='comp', A='P3', B='Aff'),
+                           dict(k='comp', A='V', B='V'), dict(k='comp', A='M', B='V'),
+                           dict(k='comp', A='V', B='M')],
           _expr),
     OSpec('OperatorPointwiseProduct', [dict(k='pwprod', A='A', B='M'), dict(k='pwprod', A='P2', B='sin'),
-                                       dict(k='pwprod', A='Aff', B='exp')], _expr),
+                                       dict(k='pwprod', A='Aff', B='exp'), dict(k='pwprod', A='V', B='M'),
+                                       dict(k='pwprod', A='M', B='V'), dict(k='pwprod', A='V', B='V')], _expr),
     OSpec('OperatorLeftScalarMult', [dict(k='lscal', A='A'), dict(k='lscal', A='P2'),
-                                     dict(k='lscal', A='A', a=0.0), dict(k='lscal', A='Ac', space='cn2')],
+                                     dict(k='lscal', A='A', a=0.0), dict(k='lscal', A='Ac', space='cn2'),
+                                     dict(k='lscal', A='V')],
           _expr),
     OSpec('OperatorRightScalarMult', [dict(k='rscal', A='A'), dict(k='rscal', A='P2'),
                                       dict(k='rscal_tmp', A='sin'), dict(k='rscal', A='P3', a=-0.5),
-                                      dict(k='rscal', A='Ac', space='cn2')], _expr),
-    OSpec('OperatorLeftVectorMult', [dict(k='lvec', A='A'), dict(k='lvec', A='P2'),
+                                      dict(k='rscal', A='Ac', space='cn2'), dict(k='rscal', A='V')], _expr),
+    OSpec('OperatorLeftVectorMult', [dict(k='lvec', A='A'), dict(k='lvec', A='P2'), dict(k='lvec', A='V'),
                                      dict(k='lvec', A='Ac', space='cn2')], _expr),
-    OSpec('OperatorRightVectorMult', [dict(k='rvec', A='A'), dict(k='rvec', A='P2'),
+    OSpec('OperatorRightVectorMult', [dict(k='rvec', A='A'), dict(k='rvec', A='P2'), dict(k='rvec', A='V'),
                                       dict(k='rvec', A='Ac', space='cn2')], _expr),
     OSpec('FunctionalLeftVectorMult', [dict(k='flvec', A='I'), dict(k='flvec', A='I', lin=0),
                                        dict(k='flvec', A='I', space='cn2'),
